@@ -23,6 +23,10 @@ HARNESS_SRC = os.path.join(VERIF, 'contracts', 'kani')
 UNDECIDED_CATEGORIES = {'unwind', 'unsupported_construct', 'missing_definition', 'recursion'}
 
 
+# compiler-inserted checks that share the 'assertion' category with explicit assert!s
+BUILTIN_ASSERT = re.compile(r'^(index out of bounds|attempt to |unreachable|slice index|range (start|end)|arithmetic overflow|division by zero|called `|This is a placeholder)|overflow')
+
+
 def make_scratch(repo, scratch):
     dst = os.path.join(scratch, 'xt')
     subprocess.run(['rsync', '-a', '--exclude', '/target', '--exclude', '/.git', '--exclude', '/fuzz/target',
@@ -108,9 +112,11 @@ def summarize_harness(res, harness_file_dir):
     covers = [c for c in checks if c['category'] == 'cover']
     unsat_covers = [c for c in covers if c['status'].lower() not in ('satisfied',)]
     unreachable_own = [c for c in checks if c['status'].lower() == 'unreachable'
-                       and c['category'] == 'assertion'
+                       and c['category'] == 'assertion' and not BUILTIN_ASSERT.search(c.get('description', ''))
                        and c.get('location', {}).get('file', '').startswith(harness_file_dir)]
     passed = [c for c in checks if c['status'].lower() == 'success']
+    own_passed = [c for c in passed if c['category'] == 'assertion' and not BUILTIN_ASSERT.search(c.get('description', ''))
+                  and c.get('location', {}).get('file', '').startswith(harness_file_dir)]
     real_fail = [c for c in failed if c['category'] not in UNDECIDED_CATEGORIES]
     tool_fail = [c for c in failed if c['category'] in UNDECIDED_CATEGORIES]
     status = res.get('status', '').lower()
@@ -126,7 +132,7 @@ def summarize_harness(res, harness_file_dir):
                 n_unreachable=len([c for c in checks if c['status'].lower() == 'unreachable']),
                 n_covers=len(covers), n_covers_sat=len(covers) - len(unsat_covers),
                 failed=real_fail, tool_failed=tool_fail, undetermined=len(undet),
-                unsat_covers=unsat_covers, unreachable_own=unreachable_own,
+                unsat_covers=unsat_covers, unreachable_own=unreachable_own, n_own_passed=len(own_passed),
                 duration_s=res.get('duration_ms', 0) / 1000.0, raw_status=res.get('status'))
 
 
